@@ -339,9 +339,27 @@ def render_base(rng, names, edges):
     return '{' + out + '}', numbering
 
 
-def cut_case(rng, nmax=9, kmax=4, kinds=None):
+def kekulized(rng, m):
+    """copy of m with every aromatic six-ring written as a Kekule structure (upper-case atoms, alternating
+    double bonds, random phase): another way of WRITING the same molecule, which the reader of the
+    fragments and the aromaticity pass of the hydrogen step turn back into the aromatic ring"""
+    k = m.copy()
+    arom = [a for a in m if m.nodes[a]['aromatic']]
+    for cyc in nx.cycle_basis(m.subgraph(arom)):
+        ph = rng.randrange(2)
+        for i in range(len(cyc)):
+            k.edges[cyc[i], cyc[(i + 1) % len(cyc)]]['order'] = 2 if (i + ph) % 2 == 0 else 1
+    for a in arom:
+        k.nodes[a]['aromatic'] = False
+    return k
+
+
+def cut_case(rng, nmax=9, kmax=4, kinds=None, p_kekule=0.2):
     """one C01 input: molecule, partition, labelled cuts, fragment renderings, base graph string"""
-    m = rand_molecule(rng, nmax=nmax)
+    m0 = rand_molecule(rng, nmax=nmax)
+    kek = any(m0.nodes[a]['aromatic'] for a in m0) and rng.random() < p_kekule
+    # m is the molecule as it is WRITTEN in the cut string; m0 the molecule it denotes
+    m = kekulized(rng, m0) if kek else m0
     parts = rand_partition(rng, m, kmax=kmax)
     cuts, owner = cuts_of(m, parts)
     # at most 4 cut bonds between a pair of fragments: merge offending parts
@@ -390,7 +408,8 @@ def cut_case(rng, nmax=9, kmax=4, kinds=None):
     base, numbering = render_base(rng, names, edges)
     # base graph lists nodes in DFS order: names must follow that order, so permute names accordingly
     frs = '{' + ','.join('#%s=%s' % (names[i], texts[i]) for i in rng.sample(range(len(parts)), len(parts))) + '}'
-    single_text, single_order = render_fragment(rng, m, list(m), {}, ring_style='low')
+    ms = kekulized(rng, m0) if (kek and rng.random() < 0.5) else m0
+    single_text, single_order = render_fragment(rng, ms, list(ms), {}, ring_style='low')
     single = '{[#M]}.{#M=%s}' % single_text
     # geometry of the cuts in the coordinates of the bonding step: coarse key = position in the base
     # string; fine key = offset of the fragment copy + index of the atom in its fragment text
@@ -419,8 +438,8 @@ def cut_case(rng, nmax=9, kmax=4, kinds=None):
         if ka > kb:
             ka, kb, ea, eb = kb, ka, eb, ea
         cutinfo.setdefault('%d-%d' % (ka, kb), []).append([ea[0], ea[1], eb[0], eb[1]])
-    return {'s': base + '.' + frs, 'single': single, 'mol': mol_dump(m), 'ncuts': len(cuts), 'nparts': len(parts),
-            'kind': kind, 'cutinfo': cutinfo}
+    return {'s': base + '.' + frs, 'single': single, 'mol': mol_dump(m0), 'ncuts': len(cuts), 'nparts': len(parts),
+            'kind': kind, 'cutinfo': cutinfo, 'kekule': kek}
 
 
 def mol_dump(m):
